@@ -87,7 +87,12 @@ def wire(v):
         sh, at = _flatten(v)
         return {'t': 'nd', 'sh': sh, 'e': at}
     if isinstance(v, list):
-        sh, at = _flatten(v)
+        try:
+            sh, at = _flatten(v)
+        except Unsupported:
+            # ragged / None-holding list: the index-keyed form the list fall-back of the HDF5
+            # writer uses ('0' -> v[0], '1' -> v[1], …); position = key, so order is compared
+            return {'d': [[_text(str(i)), wire(x)] for i, x in enumerate(v)]}
         return {'t': 'list', 'sh': sh, 'e': at}
     if isinstance(v, tuple):
         sh, at = _flatten(v)
@@ -206,6 +211,8 @@ def _apply_history(obj, history):
                     new = getattr(obj, name)(*args)
                     if new is None:
                         new = obj
+            if getattr(new, 'n_cond', 1) == 0:
+                continue        # no condition left: zero and one condition share the empty vector form
             obj = new
         except Exception:  # noqa: BLE001  a failing C10/C11 operation is not C16's business
             continue
